@@ -8,7 +8,7 @@ RULE = ('Engine A: FULL/DEV configuration spaces x n_designs in {1,2,5,50}; per 
         'enumeration of ALL legal designs over the admitted geos (itertools.product over per-geo options), constraints '
         'from raw data, score tuple composed by the oracle from fresh library diagnostics on reference series. '
         'THRESH: budget/share/volume bounds between every two consecutive critical values; REUSE: the same configurations '
-        'on a data object that already served another matched-markets object; SHARE-ORDER: share thresholds on a panel where lexicographic group order is not share order; WEAK: weakly correlated panels x min_corr in {0.8,0.95,0.999} x k (designs that fail the correlation test compete on their other verdicts); UNITS: DEV(4,1) on the panel scaled by 2^20 and 2^-20. Asserted: result subset of feasible set, distinct, |R| >= min(k,|F_must|), no non-exempt feasible design '
+        'on a data object that already served another matched-markets object; FLAT: a geo without variation with k >= |feasible| (membership and count only); SHARE-ORDER: share thresholds on a panel where lexicographic group order is not share order; WEAK: weakly correlated panels x min_corr in {0.8,0.95,0.999} x k (designs that fail the correlation test compete on their other verdicts); UNITS: DEV(4,1) on the panel scaled by 2^20 and 2^-20. Asserted: result subset of feasible set, distinct, |R| >= min(k,|F_must|), no non-exempt feasible design '
         'outside R scores higher than the worst of R, non-increasing order. Exemption read generously (any subset '
         'S of T containing the fixed treatment geos with optimistic budget outside the range). Non-trivial = '
         '|F_must| > k (something had to be left out); distinct = distinct case.')
@@ -37,6 +37,14 @@ def cases(tier, seed):
     # share thresholds on the share-DRIFT panel, whose volume ranking is not geometric: a later treatment group of a size can
     # have a LARGER share than an earlier one ({0,3} < {1,2}), so "all following groups are smaller still" is false
     out += spaces.threshold_space({'name': 'D', 'G': 4, 'T': 12}, methods=('exhaustive_search',), base_kw={'n_designs': 3}, parts=('share',))
+    # a geo WITHOUT variation: designs built on it have an undefined score, but they are feasible, so with k >= |feasible| they
+    # must all be returned ("all of them if fewer exist"); judged by membership and count only (no scores are compared)
+    for variant in ('flatlast', 'zerolast'):
+        pf = {'name': 'B', 'G': 4, 'T': 14, 'variant': variant}
+        for c in spaces.with_methods(spaces.dev_configs(pf, 1, ['treatment_geos_range', 'control_geos_range', 'geo_ratio_tolerance', 'n_pretest_max'],
+                                                        base_kw={'n_designs': 200}, k_values=(), with_matrix_level=False), ('exhaustive_search',)):
+            if spaces.precondition_ok(c):
+                out.append(dict(c, count_only=True, deviations=c['deviations'] + 1))
     out += spaces.weak_space(seeds=(0, 1, 5) if tier != 'thorough' else (0, 1, 2, 3, 5, 6))
     out += spaces.reuse_space(pB4, INCLUDE, {'n_designs': 2}, methods=('exhaustive_search',), d=2 if tier == 'thorough' else 1)
     return out
@@ -47,6 +55,24 @@ def run_case(case):
     if obs['stage'] == 'data':
         return {'viol': [], 'nontrivial': False, 'outcome': 'data-rejected'}
     ref = sc.Ref(case)
+    if case.get('count_only'):
+        viol = []
+        if obs['exc'] is None and obs['admitted'] is not None:
+            F_any, F_must, _ = ref.feasible_sets(obs['admitted'], with_exemption=False)
+            got = {(frozenset(d['T']), frozenset(d['C'])) for d in obs['designs']}
+            k = case['kw'].get('n_designs', 1)
+            if len(got) != len(obs['designs']):
+                viol.append({'key': 'C03:duplicate-designs', 'msg': 'result contains the same design twice'})
+            if not got <= F_any:
+                viol.append({'key': 'C03:returned-infeasible', 'msg': 'returned designs outside the feasible set: %s' % [sc._fmt(g) for g in sorted(got - F_any, key=sc._dkey)[:2]]})
+            if len(got) < min(k, len(F_must)):
+                missing = sorted(F_must - got, key=sc._dkey)
+                viol.append({'key': 'C03:too-few', 'msg': 'returned %d designs, n_designs=%d, but %d feasible designs exist (a geo without variation is present); e.g. missing %s' % (
+                    len(got), k, len(F_must), sc._fmt(missing[0]))})
+        elif obs['exc'] is not None and obs['stage'] != 'data' and obs['exc']['type'] != 'ValueError':
+            viol.append({'key': 'C03:raises-' + obs['exc']['type'], 'msg': 'exhaustive_search raised %s on a panel with a flat geo' % obs['exc']['type']})
+        nd = len(obs['designs'] or ())
+        return {'viol': viol, 'nontrivial': nd >= 1, 'outcome': ['flat', min(nd, 3)], 'counts': {'designs_returned': nd}}
     viol, info = sc.oracle_optimal(case, ref, obs)
     k = case['kw'].get('n_designs', 1)
     nd = len(obs['designs'] or ())
